@@ -3,7 +3,8 @@ from vlib.core import Query
 from checks import pipeseq as ps
 
 OPN = {0: "P:set_flow_def(block.)", 1: "P:set_flow_def(block.other.)", 2: "P:input", 3: "P:flush", 4: "P:release(qsink)", 5: "A:release(qsrc handle)",
-       7: "C:worker", 8: "C:oob", 9: "P:watcher", 10: "P:set_output(qsink,S1)", 11: "P:set_output(qsink,NULL)"}
+       7: "C:worker", 8: "C:oob", 9: "P:watcher", 10: "P:set_output(qsink,S1)", 11: "P:set_output(qsink,NULL)",
+       12: "P:register request", 13: "P:unregister request", 14: "C:provider answers", 15: "P:oob"}
 
 CLAIM = {
     "text": "Bounded model checking of the REAL queue sink / queue source pipes (lib/upipe-modules/upipe_queue_sink.c, "
@@ -24,7 +25,7 @@ CLAIM = {
             "fields, upipe_transfer / upipe_worker / uprobe_transfer / upipe_pthread_transfer (thread affinity of transferred pipes), "
             "queue lengths above 2. The schedule is enumerated by the driver, not symbolic: one symbolic scheduling step already gave no "
             "verdict in 600 s (and CBMC's --paths mode did not finish 2000 paths in 15 min). Hook: UPIPE_VERIF_OOB_QUEUES shortens the "
-            "two out-of-band queues from 255 to 2 slots so that the pipe stays a field-sensitive object for CBMC.",
+            "two out-of-band queues from 255 to 4 slots so that the pipe stays a field-sensitive object for CBMC.",
     "technique": "CBMC bounded model checking of the real C pipes under a sequentialised two-thread schedule (callback granularity, "
                  "enumerated schedules, eventfd model, symbolic payloads) with online order / flow-definition / end-of-source monitors and "
                  "memory-leak check",
@@ -57,7 +58,7 @@ def schedules(script, bursts, k):
 
 def q(name, ops, ln, timeout=600, sample=False, replay=False):
     return Query(name=name, harness="C06_queue.c",
-                 defines=["OPS=" + ",".join(map(str, ops)), "LEN=%d" % ln, "WITNESS_DELIVERED=0", "VERIF_POOL_NO_MGR_REF", "UPIPE_VERIF_OOB_QUEUES=2"],
+                 defines=["OPS=" + ",".join(map(str, ops)), "LEN=%d" % ln, "WITNESS_DELIVERED=0", "VERIF_POOL_NO_MGR_REF", "UPIPE_VERIF_OOB_QUEUES=4"],
                  shims=ps.SHIMS, unwind=max(14, len(ops) + 3), unwindset=[u for u in ps.UW if not u.startswith("env_count")] + ["env_count.0:50"], fp_restrict=True, timeout=timeout, leak=True,
                  replay_witness=replay,
                  sample={"queue length": ln, "schedule": [OPN[o] for o in ops] + ["release both", "run the loops until quiescent"],
@@ -94,7 +95,7 @@ def build(tier):
             "assumptions": ["eventfd(2) model: counter per descriptor, read returns and resets it or fails with EAGAIN, write adds; close",
                             "event loop = upump_mock.h over the real upump_common.c; a callback runs only when its watcher is active and its descriptor readable",
                             "granularity: one callback / API call is one atomic step",
-                            "hook UPIPE_VERIF_OOB_QUEUES=2 (out-of-band queues of 2 slots instead of 255)"] + ps.COMMON_ASSUME[1:3],
+                            "hook UPIPE_VERIF_OOB_QUEUES=4 (out-of-band queues of 4 slots instead of 255)"] + ps.COMMON_ASSUME[1:3],
             "outside": ["interleavings inside a callback", "data races on non-atomic fields", "upipe_transfer / upipe_worker / uprobe_transfer / pthread transfer",
                         "queue lengths above 2", "requests across the queue (C12)"]}
     return qs, meta
